@@ -141,7 +141,8 @@ func NormalizeFrequencies(freqs []int, alphabet []int, totalFreq, scale int) (in
 
 	// Shortcut
 	if totalFreq == scale {
-		for i := 0; i < 256; i++ {
+		// The number of symbols is given by the alphabet (it may be less than 256)
+		for i := range alphabet {
 			if freqs[i] != 0 {
 				alphabet[alphabetSize] = i
 				alphabetSize++
